@@ -23,7 +23,9 @@ CLAIMED = {
              "short buffer (symbolic shortfall) that try_get returns Err{requested, available} with the cursor untouched and get never "
              "returns. Chunking: every chunking of the value for widths <= 4 (symbolic chunk length at every position), one symbolic cut "
              "plus 1-byte and 3-byte chunks for 8/16-byte values (all chunkings in the thorough tier); implementors &[u8], Bytes, BytesMut, "
-             "Cursor, Chain, Take and the &mut / Box forwarding impls.",
+             "Cursor, Chain, Take and the &mut / Box forwarding impls. Exactly `width` bytes and `width + 1` bytes remaining are both covered "
+             "(the boundary of the enough-bytes test); the one-cut and Chain targets are physically fragmented (each chunk flush with the end of "
+             "its own array), so a read past the end of chunk() leaves the object.",
         note=COMMON_NOTE + "Native endian is checked on the little-endian target only. For 16-byte values the quick tier does not cover "
              "chunkings with two or more boundaries other than all-1-byte and all-3-byte chunks (thorough does). slice_index_fail is stubbed by a plain panic.",
         technique="Kani/CBMC symbolic execution of each getter vs. independent reference decoder (SAT)",
@@ -47,7 +49,8 @@ CLAIMED = {
              "that does not fit never returns and an observer installed in place of the crate's panic_advance asserts that no guard byte was "
              "modified when the panic is raised. put_slice/put_bytes/put(Buf) with symbolic sources (SymBuf, independent chunking on both "
              "sides). Targets: &mut [u8], &mut [MaybeUninit<u8>], Vec (growth / no growth), BytesMut (vec form with/without offset, shared "
-             "form in thorough), Chain with symbolic split, Limit with symbolic limit, SymBufMut (1-byte, 3-byte, symbolic chunks), &mut B, Box<B>.",
+             "form in thorough), Chain with symbolic split whose halves are windows of SEPARATE guard arrays (an overrun of the first half's chunk hits a guard), "
+             "Limit with symbolic limit, SymBufMut (1-byte, 3-byte, symbolic chunks), &mut B, Box<B> (incl. the provided put_bytes loop over a Vec with less spare capacity than the fill).",
         note=COMMON_NOTE + "Windows <= 20 bytes; growable targets use concrete nbytes/lengths (they are allocation sizes); native endian on "
              "little-endian only; bytes::panic_advance and core::slice::index::slice_index_fail are stubbed (observer / plain panic).",
         technique="Kani/CBMC symbolic execution of each putter vs. independent reference encoder, guard bytes, panic-site observer stub (SAT)",
@@ -120,11 +123,13 @@ CLAIMED = {
         engine="E1-kani + E2-mirsym",
         text="Bounded model checking of clause (i): for every safe method with a contract (slice, slice_ref, split_off, split_to, advance, advance_mut, "
              "resize/reserve with unrepresentable sizes, typed get/put on short buffers, nbytes > 8) the argument is symbolic over the ENTIRE "
-             "out-of-contract region; the only check allowed to fail is the method's contract panic, the call must not return, and all memory-safety "
-             "and overflow checks hold; documented no-ops (truncate beyond len, refused try_reclaim) leave the handle bit-identical; does-not-fit "
+             "out-of-contract region; the only checks allowed to fail are clean panics of the code under test (an assert!/panic!/expect of the crate or one of std's "
+             "panic helpers, wherever it sits - never an arithmetic-overflow check, a debug_assert! or a harness assertion), at least one must fail, the call must not return, and all memory-safety "
+             "and overflow checks hold; the in-crate families are decided with debug assertions on AND off; documented no-ops (truncate beyond len, refused try_reclaim) leave the handle bit-identical; does-not-fit "
              "writes are observed at the panic site (guards untouched).",
         note=COMMON_NOTE + "Clause (ii)/(iii) (state after a caught panic, storage released once after unwinding) cannot be executed: Kani models "
-             "panic as abort. What is decided is 'the panic is the first effect' at the cursor panic sites (observer stub) and 'no return'.",
+             "panic as abort. What is decided is 'the panic is the first effect' (E2 path query over the MIR of ten panicking &mut self methods: no store through *self, "
+             "no atomic read-modify-write, no buffer write on any path to a crate-level panic; observer stubs at the cursor / Vec panic sites) and 'no return'.",
         technique="Kani/CBMC over the whole out-of-contract argument region with expectation records (SAT)", design="5 C13"),
     "C18": dict(
         text="Bounded model checking of the inductive recycling step: from the state class R(C) (one empty BytesMut that is the sole owner of an "
